@@ -240,7 +240,7 @@ func Minimise(sc *props.Scenario, fails func(*props.Scenario) bool, maxAttempts 
 				i--
 			}
 		}
-		for i := 0; i < len(cur.Spellings) && len(cur.Spellings) > 2; i++ {
+		for i := 1; i < len(cur.Spellings) && len(cur.Spellings) > 2; i++ { // the first spelling is the canonical one
 			c := cur.Clone()
 			c.Spellings = append(append([]string{}, c.Spellings[:i]...), c.Spellings[i+1:]...)
 			if try(c) {
